@@ -106,10 +106,11 @@ theorem mixed_identifiers_apply_other_evaluator :
      | _ => []) = [(.A, 4), (.A, 4), (.Global, 4)] := by decide
 
 /-- The scoped-counter finding is a property of the generic `ils::ils` (here with identifier `A`, as regenerated
-from the code): one outer pass, two inner passes, every evaluation of one individual: the reported count differs from the number of calls made. -/
+from the code, scoped `ls` loop as in `real_ils` since 364645e): one outer pass with one pass of the scoped local
+search, every evaluation of one individual: 2 evaluations reported, 3 calls made. -/
 theorem generic_ils_counter_violates :
-    (runC ⟨fun t => t == 3 || t == 10 || t == 16, fun _ => false, fun _ => 1⟩ 200 (IComp.erase generic_ils_v0)).map
-      (fun s => decide (visible s.counters = some s.calls)) = some false := by decide
+    (runC ⟨fun t => t == 3 || t == 8, fun _ => false, fun _ => 1⟩ 200 (IComp.erase generic_ils_v0)).map
+      (fun s => (visible s.counters, s.calls, decide (visible s.counters = some s.calls))) = some (some 2, 3, false) := by decide
 
 /-! Non-vacuity: the hypotheses hold on a regenerated tree, runs of it finish, and they log applications of `A`. -/
 example : usesOnlyTop .A generic_bh_v0 = true := by decide
